@@ -38,6 +38,8 @@ def chain_mixed(args, rng):
             n = rng.randint(1, min(4, len(args) - i)) if i < len(args) else 0
             ops.append("a:" + wargs(args[i:i + n])); i += n
     return ops
+def rel_case(scn, f, oth, pre_ops, post_ops):
+    return " ".join(["rel", scn, hx(f), hx(oth)] + pre_ops + ["/"] + post_ops)
 def fmt_case(f, ops):
     return " ".join(["fmt", hx(f)] + ops)
 
@@ -60,7 +62,9 @@ def parse_case(case):
     w = case.split()
     if w[0] == "os":
         w = ["os"] + w[4:]
-    if w[0] in ("fmt", "seq", "os"):
+    if w[0] == "rel":
+        w = ["rel", w[2]] + [x for x in w[4:] if x != "/"]
+    if w[0] in ("fmt", "seq", "os", "rel"):
         ops, fs, newf = [], [], True
         for o in w[1:]:
             if o == "/":
@@ -83,7 +87,7 @@ class C08(Check):
     technique = ("Coq proof over an executable model of formatter::str()/operator%/args(...) and make_string "
                  "(loop invariant relating the regex-iterator loop to the split-based formula; reuse of the proved string layer of C17) "
                  "+ extraction-based differential test against the C++")
-    level_text = ("Twenty-seven theorems proved in Coq for ALL format strings (byte lists) and ALL argument lists over a Gallina model that "
+    level_text = ("Twenty-nine theorems proved in Coq for ALL format strings (byte lists) and ALL argument lists over a Gallina model that "
                   "follows formatter::str() statement by statement (regex iterator = next occurrence of '{}' in the format after the previous "
                   "match): the loop equals 'pieces of split \"{}\" fmt interleaved with the arguments' exactly when |args| = number of "
                   "left-to-right non-overlapping '{}' and raises otherwise (less / more), the pieces glue back to the format and contain no "
@@ -92,7 +96,8 @@ class C08(Check):
                   "argument list in the order written; every argument is rendered on its own (marker i receives render(argument i), a function "
                   "of that argument alone: independent of neighbouring arguments — including user types and manipulators that leave "
                   "hex/fixed/precision/fill/boolalpha on their stream — and of formatters used earlier: format_seq), a manipulator passed as "
-                  "an argument renders as the empty text; operator<< into the caller's stream is all or nothing (when str() raises the stream is "
+                  "an argument renders as the empty text; the formatter object is a value (relocating it between two groups of arguments changes "
+                  "nothing: reloc_chain); operator<< into the caller's stream is all or nothing (when str() raises the stream is "
                   "unchanged, a pending width still pending) and otherwise inserts the text as ONE item (padded as a whole to the pending "
                   "width/fill/adjustment, width consumed); the exception message is the concatenation of the rendered arguments (for "
                   "arguments that leave the stream state alone: make_string shares one stream), and the model's decimal printer "
@@ -262,6 +267,37 @@ class C08(Check):
                 ops = chain_pct(args) if st < 0.3 else chain_args(args) if st < 0.6 and n <= 8 else chain_mixed(args, rng)
                 fs.append([hx(" ".join(["{}"] * k))] + ops)
             yield ("fmt " + " ".join(fs[0])) if len(fs) == 1 else ("seq " + " / ".join(" ".join(g) for g in fs)), "valcat-rand"
+        # the formatter OBJECT is a value: copy / move construction and assignment, relocation in a growing vector, return by
+        # value, swap; source destroyed or reused; formats inside (<= 15 chars) and outside the small-string buffer; arguments
+        # given before and/or after the relocation
+        SCN = ["mc", "mcd", "mcr", "ma", "mad", "cc", "ccd", "ca", "cad", "vec", "ret", "sw"]
+        RFMT = ["", "x", "{}", "a{}", "{}{}", "id={} n={}", "{}{}{}", "0123456789abc{}", "0123456789abcd{}", "0123456789abcde",
+                "0123456789abcdef", "the quick brown fox {} jumps over {} lazy dogs", "{} at the start of a long format string"]
+        ROTH = ["", "zz{}", "another format string {} that is long"]
+        RARG = ["s78", "n616263", "i7", "i-9", "r7b7d", "h255", "l79"]
+        for scn in SCN:
+            for f in RFMT:
+                k = f.count("{}")
+                for oth in ROTH:
+                    for n in sorted(set([k, max(0, k - 1), k + 1])):
+                        args = [A(RARG[(i + len(f)) % len(RARG)]) for i in range(n)]
+                        for cut in sorted(set([0, n // 2, n])):
+                            pre, post = args[:cut], args[cut:]
+                            yield rel_case(scn, f, oth, chain_pct(pre), chain_pct(post)), "rel-exh"
+                            if n:
+                                yield rel_case(scn, f, oth, chain_args(pre) if pre else [], chain_args(post) if post else []), "rel-exh"
+        R = 1500 if tier == "quick" else 30000
+        for _ in range(R):
+            k = rng.randint(0, 4)
+            f = "{}".join("".join(rng.choice("ab{}= ") for _ in range(rng.choice([0, 1, 2, 3, 5, 8, 14, 20]))) for _ in range(k + 1))
+            k = f.count("{}")
+            oth = rng.choice(ROTH + [f, f[:3]])
+            n = max(0, k + rng.choice([0, 0, 0, 0, 1, -1]))
+            args = [A(rng.choice(RARG + SENSITIVE)) for _ in range(n)]
+            cut = rng.randint(0, n)
+            pre = chain_mixed(args[:cut], rng) if cut else []
+            post = chain_mixed(args[cut:], rng) if cut < n else []
+            yield rel_case(rng.choice(SCN), f, oth, pre, post), "rel-rand"
         # (v) operator<< into the caller's stream: all or nothing, and one item with respect to a pending width
         STREAMS = ["0 20 r", "12 20 r", "12 2a r", "12 2a l", "3 2a l", "1 30 i", "12 2e i", "6 2a r"]
         for f in strings("{}a", 4 if tier == "quick" else 5):
@@ -307,6 +343,8 @@ class C08(Check):
             return "{}" in f and n >= 1
         if kind == "os":
             return "{}" in f or n >= 1
+        if kind == "rel":
+            return True
         return n >= 2
 
     def signature(self, case, mobs, iobs):
@@ -320,6 +358,12 @@ class C08(Check):
             width = int(ww[1])
             return ("os", iobs.split(" ")[-1], min(k, 4), max(-2, min(2, n - k)), ww[3], ww[2] == "20",
                     0 if width == 0 else (1 if width <= len(f) else 2), kinds)
+        if kind == "rel":
+            ww = case.split()
+            sep = ww.index("/")
+            k = f.count("{}")
+            return ("rel", ww[1], (iobs.split(" ") + ["", ""])[1] == "R", len(f) <= 15, len(unhx(ww[3])) <= 15, min(k, 4), max(-1, min(1, n - k)),
+                    sep > 4, sep < len(ww) - 1, kinds)
         if kind in ("fmt", "seq"):
             k = f.count("{}")
             styles = "".join(sorted(set(c for c, _ in ops)))
@@ -341,6 +385,21 @@ class C08(Check):
                     yield " ".join(["os", w[1][:-1]] + w[2:])
             for c in self.shrink("fmt " + " ".join(w[4:])):
                 yield head + c[3:]
+            return
+        if w[0] == "rel":
+            sep = w.index("/")
+            # simpler scenario, shorter formats, fewer / smaller arguments on either side
+            for j in (2, 3):
+                o = w[j]
+                if o != "-":
+                    for b in range(0, len(o), 2):
+                        yield " ".join(w[:j] + [(o[:b] + o[b + 2:]) or "-"] + w[j + 1:])
+            for lo, hi in ((4, sep), (sep + 1, len(w))):
+                if hi > lo:
+                    for c in self.shrink("fmt - " + " ".join(w[lo:hi])):
+                        cw = c.split()
+                        if cw[1] == "-":
+                            yield " ".join(w[:lo] + cw[2:] + w[hi:])
             return
         if w[0] in ("fmt", "seq"):
             # seq: drop one whole formatter; a single formatter left becomes a fmt case
